@@ -161,6 +161,12 @@ impl SyncTable {
                     is_transfer_target: false,
                     claimed_twice: false,
                 });
+                #[cfg(feature = "salsa_verif")]
+                crate::runtime::verif_protocol::emit_sync(|| crate::runtime::verif_protocol::Op::Claim {
+                    thread: crate::runtime::verif_protocol::current_tid(),
+                    query: crate::runtime::verif_protocol::key_pub(DatabaseKeyIndex::new(self.ingredient, key_index)),
+                    how: "vacant",
+                });
                 ClaimResult::Claimed(ClaimGuard {
                     key_index,
                     zalsa,
@@ -244,6 +250,12 @@ impl SyncTable {
 
                 *id = SyncOwner::Thread(thread_id);
                 *claimed_twice = true;
+                #[cfg(feature = "salsa_verif")]
+                crate::runtime::verif_protocol::emit_sync(|| crate::runtime::verif_protocol::Op::Claim {
+                    thread: crate::runtime::verif_protocol::current_tid(),
+                    query: crate::runtime::verif_protocol::key_pub(database_key_index),
+                    how: "reentrant",
+                });
 
                 Ok(ClaimResult::Claimed(ClaimGuard {
                     key_index,
@@ -266,6 +278,12 @@ impl SyncTable {
                     is_transfer_target: false,
                     claimed_twice: false,
                 };
+                #[cfg(feature = "salsa_verif")]
+                crate::runtime::verif_protocol::emit_sync(|| crate::runtime::verif_protocol::Op::Claim {
+                    thread: crate::runtime::verif_protocol::current_tid(),
+                    query: crate::runtime::verif_protocol::key_pub(database_key_index),
+                    how: "stale-transfer",
+                });
                 Ok(ClaimResult::Claimed(ClaimGuard {
                     key_index,
                     zalsa,
@@ -410,6 +428,16 @@ impl<'me> ClaimGuard<'me> {
             claimed_twice,
             ..
         } = state;
+
+        #[cfg(feature = "salsa_verif")]
+        crate::runtime::verif_protocol::emit_sync(|| crate::runtime::verif_protocol::Op::Release {
+            thread: crate::runtime::verif_protocol::current_tid(),
+            query: crate::runtime::verif_protocol::key_pub(self.database_key_index()),
+            result: crate::runtime::verif_protocol::res_pub(wait_result),
+            anyone_waiting,
+            claimed_twice,
+            is_transfer_target,
+        });
 
         if !anyone_waiting {
             return;
